@@ -147,7 +147,7 @@ func c03Evaluate(ctx *Ctx, root string, cfg wrConfig, before, after map[string]f
 		if solved {
 			continue
 		}
-		key := "C03/log-mismatch/" + fileClass(p.rel) + "/" + kindsOf(p.entries)
+		key := "C03/log-mismatch/" + fileClass(p.rel)
 		what := "the new content is not the old content with the printed AUTOFIX actions applied"
 		content := false
 		for _, e := range p.entries {
@@ -379,6 +379,13 @@ func runC03(ctx *Ctx) *Result {
 	return res
 }
 
+type pendingC03 struct {
+	tree map[string]fileState
+	cfg  wrConfig
+	p    c03Problem
+	size int
+}
+
 func c03Whole(ctx *Ctx, res *Result, rng *Rng) {
 	ntrees := 140
 	if ctx.Tier == "thorough" {
@@ -425,6 +432,7 @@ func c03Whole(ctx *Ctx, res *Result, rng *Rng) {
 	actionKinds := map[string]bool{}
 	nontrivial := 0
 	var reloadExamples []any
+	worst := map[string]pendingC03{}
 	for _, j := range jobs {
 		if j.err != nil {
 			res.Broken = "oracle: " + j.err.Error()
@@ -477,8 +485,20 @@ func c03Whole(ctx *Ctx, res *Result, rng *Rng) {
 			res.Sample(map[string]any{"run": j.cfg.String(), "autofix_lines": n, "files_changed": len(j.ev.Changed), "first": one})
 		}
 		for _, p := range j.ev.Problems {
-			c03Report(ctx, res, j.tree, j.cfg, p, 120)
+			sz := treeSize(j.tree)
+			if old, ok := worst[p.Key]; !ok || sz < old.size {
+				worst[p.Key] = pendingC03{j.tree, j.cfg, p, sz}
+			}
 		}
+	}
+	// one report (and one shrinking) per kind of problem, on the smallest tree that showed it
+	for i, k := range sortedKeys(worst) {
+		w := worst[k]
+		budget := 120
+		if i >= 6 {
+			budget = 0
+		}
+		c03Report(ctx, res, w.tree, w.cfg, w.p, budget)
 	}
 	res.DistinctNontrivial += nontrivial
 	res.Count("W.runs", ntrees)
